@@ -3,9 +3,9 @@
            DOP values as functions of the cofactor matrix M.
    Part 2: an executable counterpart over Q used by the correspondence check: the design rows are taken
            from 90-bit enclosures of cos/sin (coq-interval), the normal matrix is inverted exactly
-           (Gauss-Jordan; the result is *checked* to be the inverse), traces are compared with the squares of
+           (integer adjugate / determinant on the grid 2^-64; N adj = det I is checked, not assumed), traces are compared with the squares of
            the implementation's doubles. *)
-From Coq Require Import ZArith QArith Qabs Bool List Reals.
+From Coq Require Import ZArith QArith Qabs Qround Bool List Reals.
 From Interval Require Import Specific_bigint Specific_ops Float_full Interval Xreal Basic.
 From Bignums Require Import BigZ.
 From Verif Require Import Lib.Dyadic.
@@ -99,82 +99,74 @@ Definition encl (fn : F.precision -> I.type -> I.type) (d : dy) : option (Q * Q)
   | None => None
   end.
 
-Definition mid (p : Q * Q) : Q := Qred ((fst p + snd p) * (1 # 2)).
 Definition width (p : Q * Q) : Q := snd p - fst p.
 
-(* the four entries of a design row from enclosures of width <= 2^-80 (checked), taken at the midpoints *)
-Definition qrow := list Q.
-Definition design_row (az el : dy) : option qrow :=
+(* midpoint of an enclosure, rounded down to the grid 2^-64 and scaled by 2^64 (an integer) *)
+Definition sc : Z := 2 ^ 64.
+Definition midZ (p : Q * Q) : Z := Qfloor ((fst p + snd p) * (1 # 2) * inject_Z sc).
+
+(* the four entries of a design row, scaled by 2^64, from enclosures of width <= 2^-80 (checked): the entries
+   are within 2^-62 of -cos(el) cos(az), -cos(el) sin(az), -sin(el), 1 *)
+Definition zrow := list Z.
+Definition design_row (az el : dy) : option zrow :=
   match encl I.cos az, encl I.sin az, encl I.cos el, encl I.sin el with
   | Some ca, Some sa, Some ce, Some se =>
       let small p := Qle_bool (width p) (1 # 2 ^ 80) in
       if small ca && small sa && small ce && small se then
-        Some [Qred (- mid ce * mid ca); Qred (- mid ce * mid sa); Qred (- mid se); 1]
+        Some [(- (midZ ce * midZ ca / sc))%Z; (- (midZ ce * midZ sa / sc))%Z; (- midZ se)%Z; sc]
       else None
   | _, _, _, _ => None
   end.
 
-Fixpoint map2 (f : Q -> Q -> Q) (a b : qrow) : qrow :=
-  match a, b with x :: a', y :: b' => f x y :: map2 f a' b' | _, _ => [] end.
+Definition all_rows (sats : list (dy * dy)) : list (option zrow) := map (fun s => design_row (fst s) (snd s)) sats.
 
-Definition zero4 : list qrow := [[0;0;0;0];[0;0;0;0];[0;0;0;0];[0;0;0;0]].
-Definition outer (r : qrow) : list qrow := map (fun x => map (fun y => x * y) r) r.
-Definition madd (A B : list qrow) : list qrow :=
-  (fix go A B := match A, B with a :: A', b :: B' => map Qred (map2 Qplus a b) :: go A' B' | _, _ => [] end) A B.
-Definition normalQ (rows : list qrow) : list qrow := fold_right (fun r acc => madd (outer r) acc) zero4 rows.
+Fixpoint zmap2 (f : Z -> Z -> Z) (a b : zrow) : zrow :=
+  match a, b with x :: a', y :: b' => f x y :: zmap2 f a' b' | _, _ => [] end.
+Definition zero4 : list zrow := [[0;0;0;0];[0;0;0;0];[0;0;0;0];[0;0;0;0]]%Z.
+Definition outer (r : zrow) : list zrow := map (fun x => map (fun y => (x * y)%Z) r) r.
+Fixpoint madd (A B : list zrow) : list zrow :=
+  match A, B with a :: A', b :: B' => zmap2 Z.add a b :: madd A' B' | _, _ => [] end.
+(* H^T H (scaled by 2^128) *)
+Definition normalZ (rows : list zrow) : list zrow := fold_right (fun r acc => madd (outer r) acc) zero4 rows.
 
-(* Gauss-Jordan on [N | I] *)
-Definition rsub (a p : qrow) (k : Q) : qrow := map Qred (map2 (fun x y => x - k * y) a p).
-Definition elim (c : nat) (p r : qrow) : qrow := rsub r p (nth c r 0).
-Fixpoint pick (c : nat) (rows : list qrow) : option (qrow * list qrow) :=
-  match rows with
-  | [] => None
-  | r :: rs =>
-      if Qeq_bool (nth c r 0) 0 then
-        match pick c rs with Some (p, rest) => Some (p, r :: rest) | None => None end
-      else Some (r, rs)
-  end.
-Fixpoint gj (n c : nat) (done todo : list qrow) : option (list qrow) :=
-  match n with
-  | O => Some done
-  | S n' =>
-      match pick c todo with
-      | None => None
-      | Some (p, rest) =>
-          let p1 := map Qred (map (Qmult (/ nth c p 0)) p) in
-          gj n' (S c) (map (elim c p1) done ++ [p1]) (map (elim c p1) rest)
-      end
-  end.
-Definition ident4 : list qrow := [[1;0;0;0];[0;1;0;0];[0;0;1;0];[0;0;0;1]].
-Definition inverse4 (N : list qrow) : option (list qrow) :=
-  match gj 4 0 [] (map (fun p => fst p ++ snd p) (combine N ident4)) with
-  | Some rows => Some (map (skipn 4) rows)
-  | None => None
-  end.
-
-Definition mmulQ (A B : list qrow) : list qrow :=
-  map (fun a => map (fun j => fold_right Qplus 0 (map2 Qmult a (map (fun b => nth j b 0) B))) [0%nat;1%nat;2%nat;3%nat]) A.
-Definition meqQ (A B : list qrow) : bool :=
-  (length A =? length B)%nat && forallb (fun p => (length (fst p) =? length (snd p))%nat && forallb (fun q => Qeq_bool (fst q) (snd q)) (combine (fst p) (snd p))) (combine A B).
-
-Definition ent (M : list qrow) (i j : nat) : Q := nth j (nth i M []) 0.
-Definition norm_inf (M : list qrow) : Q := fold_right (fun r acc => let s := fold_right (fun x a => Qabs x + a) 0 r in if Qle_bool acc s then s else acc) 0 M.
+Definition zent (M : list zrow) (i j : nat) : Z := nth j (nth i M []) 0%Z.
+Fixpoint drop_nth {A : Type} (n : nat) (l : list A) : list A :=
+  match l, n with [] , _ => [] | _ :: r, O => r | x :: r, S n' => x :: drop_nth n' r end.
+Definition minor (M : list zrow) (i j : nat) : list zrow := map (drop_nth j) (drop_nth i M).
+Definition det3 (M : list zrow) : Z :=
+  let e (i j : nat) := zent M i j in
+  let a := e 0%nat 0%nat in let b := e 0%nat 1%nat in let c := e 0%nat 2%nat in
+  let d := e 1%nat 0%nat in let f := e 1%nat 1%nat in let g := e 1%nat 2%nat in
+  let h := e 2%nat 0%nat in let k := e 2%nat 1%nat in let l := e 2%nat 2%nat in
+  (a * (f * l - g * k) - b * (d * l - g * h) + c * (d * k - f * h))%Z.
+Definition cofactor (M : list zrow) (i j : nat) : Z :=
+  ((if Nat.even (i + j) then 1 else -1) * det3 (minor M i j))%Z.
+Definition idx4 : list nat := [0; 1; 2; 3]%nat.
+(* adjugate: adj[i][j] = cofactor(j, i) *)
+Definition adjugate (M : list zrow) : list zrow := map (fun i => map (fun j => cofactor M j i) idx4) idx4.
+Definition det4 (M : list zrow) : Z := fold_right Z.add 0%Z (map (fun j => (zent M 0%nat j * cofactor M 0%nat j)%Z) idx4).
+Definition mmulZ (A B : list zrow) : list zrow :=
+  map (fun i => map (fun j => fold_right Z.add 0%Z (map (fun k => (zent A i k * zent B k j)%Z) idx4)) idx4) idx4.
+Definition scalarI (d : Z) : list zrow := map (fun i => map (fun j => if Nat.eqb i j then d else 0%Z) idx4) idx4.
+Definition meqZ (A B : list zrow) : bool :=
+  forallb (fun i => forallb (fun j => Z.eqb (zent A i j) (zent B i j)) idx4) idx4.
+Definition norm_infZ (M : list zrow) : Z := fold_right Z.max 0%Z (map (fun r => fold_right (fun x a => (Z.abs x + a)%Z) 0%Z r) M).
 
 (* exact squares of the DOP values of a geometry: (g2, p2, t2, h2, v2) and the condition number estimate
-   kappa = |N|_inf |N^-1|_inf; None when the normal matrix is singular *)
+   kappa = |N|_inf |N^-1|_inf; None when the normal matrix is singular.
+   N = normalZ / 2^128, N^-1 = 2^128 adj / det; N adj = det I is checked, not assumed. *)
 Definition dops2 (sats : list (dy * dy)) : option (Q * Q * Q * Q * Q * Q) :=
-  let rows := map (fun s => design_row (fst s) (snd s)) sats in
+  let rows := all_rows sats in
   if existsb (fun r => match r with None => true | _ => false end) rows then None else
-  let N := normalQ (map (fun r => match r with Some x => x | None => [] end) rows) in
-  match inverse4 N with
-  | Some M =>
-      if meqQ (mmulQ N M) ident4 then
-        let h2 := ent M 0 0 + ent M 1 1 in
-        let p2 := h2 + ent M 2 2 in
-        Some (Qred (p2 + ent M 3 3), Qred p2, ent M 3 3, Qred h2, ent M 2 2, Qred (norm_inf N * norm_inf M))
-      else None
-  | None => None
-  end.
+  let N := normalZ (map (fun r => match r with Some x => x | None => [] end) rows) in
+  let A := adjugate N in
+  let d := det4 N in
+  if (d =? 0)%Z || negb (meqZ (mmulZ N A) (scalarI d)) then None else
+  let f (z : Z) : Q := Qred (Qmake (z * sc * sc * Z.sgn d) (Z.to_pos (Z.abs d))) in
+  let h2 := (zent A 0%nat 0%nat + zent A 1%nat 1%nat)%Z in
+  let p2 := (h2 + zent A 2%nat 2%nat)%Z in
+  Some (f (p2 + zent A 3%nat 3%nat)%Z, f p2, f (zent A 3%nat 3%nat), f h2, f (zent A 2%nat 2%nat),
+        Qred (Qmake (norm_infZ N * norm_infZ A) (Z.to_pos (Z.abs d)))).
 
 Definition dsq (d : dy) : option Q := match dy_toQ d with Some v => if Qle_bool 0 v then Some (v * v) else None | None => None end.
 
@@ -185,28 +177,31 @@ Definition dop_tol (kappa : Q) : Q :=
 
 Definition close_rel (tol a b : Q) : bool := Qle_bool (Qabs (a - b)) (tol * Qabs b).
 
-(* case: (satellites [(az, el)], (gdop, pdop, tdop, hdop, vdop) as returned)
-   0 = all five squared values equal the model's (tolerance dop_tol) and, on the doubles,
-       g^2 = p^2 + t^2 and p^2 = h^2 + v^2 (relative 1e-9);
+Definition five : Type := (dy * dy * dy * dy * dy)%type.
+
+Definition same_five (tol : Q) (a b : five) : bool :=
+  let '(g, p, t, h, v) := a in let '(g', p', t', h', v') := b in
+  let cl a b := match dy_toQ a, dy_toQ b with Some x, Some y => close_rel tol x y | _, _ => false end in
+  cl g g' && cl p p' && cl t t' && cl h h' && cl v v'.
+
+(* case: (satellites [(az, el)], (gdop, pdop, tdop, hdop, vdop) as returned,
+          the same for (az + theta, el), the same for a reordering of the satellites)
+   0 = all five squared values equal the model's (tolerance dop_tol), on the doubles
+       g^2 = p^2 + t^2 and p^2 = h^2 + v^2 (relative 2e-9), and the rotated and the reordered run return the
+       same values (relative dop_tol);
    1 = differs from the model; 3 = the model's normal matrix is singular / not evaluable;
-   4 = agrees with the model but an identity on the doubles fails *)
-Definition check_dop (c : list (dy * dy) * (dy * dy * dy * dy * dy)) : Z :=
-  let '(sats, (g, p, t, h, v)) := c in
+   4 = an identity on the doubles fails; 6 = rotation changes the values; 7 = reordering changes the values *)
+Definition check_dop3 (c : list (dy * dy) * five * five * five) : Z :=
+  let '(sats, d0, d1, d2) := c in
+  let '(g, p, t, h, v) := d0 in
   match dops2 sats, dsq g, dsq p, dsq t, dsq h, dsq v with
   | Some (g2, p2, t2, h2, v2, kappa), Some gs, Some ps, Some ts, Some hs, Some vs =>
       let tol := dop_tol kappa in
       if close_rel tol gs g2 && close_rel tol ps p2 && close_rel tol ts t2 && close_rel tol hs h2 && close_rel tol vs v2 then
-        if close_rel (2 # 1000000000) (ps + ts) gs && close_rel (2 # 1000000000) (hs + vs) ps then 0%Z else 4%Z
+        if close_rel (2 # 1000000000) (ps + ts) gs && close_rel (2 # 1000000000) (hs + vs) ps then
+          if negb (same_five tol d0 d1) then 6%Z else if negb (same_five tol d0 d2) then 7%Z else 0%Z
+        else 4%Z
       else 1%Z
   | None, _, _, _, _, _ => 3%Z
   | _, _, _, _, _, _ => 1%Z
   end.
-
-(* the laws on the implementation alone: two runs that must give the same DOPs (all azimuths rotated /
-   satellites reordered); relative 1e-9 on the values, widened like dop_tol by the condition estimate *)
-Definition check_same (c : list (dy * dy) * (dy * dy * dy * dy * dy) * (dy * dy * dy * dy * dy)) : Z :=
-  let '(sats, (g, p, t, h, v), (g', p', t', h', v')) := c in
-  let kappa := match dops2 sats with Some (_, _, _, _, _, k) => k | None => 0 end in
-  let tol := dop_tol kappa in
-  let cl a b := match dy_toQ a, dy_toQ b with Some x, Some y => close_rel tol x y | _, _ => false end in
-  if cl g g' && cl p p' && cl t t' && cl h h' && cl v v' then 0%Z else 1%Z.
